@@ -323,6 +323,11 @@ struct X<'a> {
 	memo: HashSet<u64>,
 	me: usize,
 	n: usize,
+	/// operations every history starts with (not counted in the depth bound): exploration from a
+	/// non-initial state
+	prefix_ops: Vec<Op>,
+	/// replay: the one history to execute (operation strings)
+	only: Option<Vec<String>>,
 }
 
 fn check(seam: &Seam, gen: &Block, hist: &Hist, ops: &[String], stage: &str, rep: &mut Report) -> bool {
@@ -378,7 +383,7 @@ fn check(seam: &Seam, gen: &Block, hist: &Hist, ops: &[String], stage: &str, rep
 }
 
 fn dfs(x: &mut X<'_>, dir: &Path, hist: &Hist, ops: &mut Vec<String>, rep: &mut Report, range: (usize, usize)) {
-	if ops.len() >= x.depth {
+	if ops.len() >= x.depth + x.prefix_ops.len() {
 		return;
 	}
 	// candidate operations
@@ -403,8 +408,21 @@ fn dfs(x: &mut X<'_>, dir: &Path, hist: &Hist, ops: &mut Vec<String>, rep: &mut 
 		}
 	}
 	cands.push(Op::Apply { k: x.ks[0], sel: Sel::LastOfChunk0, parent: None, commit: false });
+	if x.only.is_some() {
+		// replay: a rolled-back unit of any size the tiers use
+		for k in &x.ks[1..] {
+			cands.push(Op::Apply { k: *k, sel: Sel::LastOfChunk0, parent: None, commit: false });
+		}
+	}
 	if !ops.is_empty() && ops.last().map(|s| s.as_str()) != Some("reopen") {
 		cands.push(Op::Reopen);
+	}
+	if ops.len() < x.prefix_ops.len() {
+		cands = vec![x.prefix_ops[ops.len()].clone()];
+	}
+	if let Some(only) = &x.only {
+		let want = only.get(ops.len()).cloned().unwrap_or_default();
+		cands.retain(|c| show(c) == want);
 	}
 	let size = range.1 - range.0;
 	let kk = cands.len().max(1);
@@ -487,7 +505,7 @@ fn dfs(x: &mut X<'_>, dir: &Path, hist: &Hist, ops: &mut Vec<String>, rep: &mut 
 		}
 		if !skip && ok {
 			let st = h2.state_at(&x.gen, h2.head);
-			let key = hash64(&(st.utxo.values().map(|u| u.leaf).collect::<Vec<_>>(), st.n_outputs, h2.blocks.len(), h2.head, x.depth - ops.len()));
+			let key = hash64(&(st.utxo.values().map(|u| u.leaf).collect::<Vec<_>>(), st.n_outputs, h2.blocks.len(), h2.head, x.depth + x.prefix_ops.len() - ops.len(), x.prefix_ops.len()));
 			if x.memo.insert(key) {
 				rep.states += 1;
 				rep.distinct += 1;
@@ -523,8 +541,17 @@ fn run(tier: Tier, shard: usize, n: usize) -> Report {
 		Tier::Thorough => (vec![1, 600, 1023, 1025], vec![Sel::None, Sel::FirstOfChunk0, Sel::LastOfChunk0, Sel::FirstOfChunk1, Sel::EveryOtherOfOldestChunk, Sel::AllOfLastPartialChunk, Sel::AllOfOldestChunk, Sel::AllOfChunk1], 4),
 	};
 	rep.extra.insert("bound_depth".into(), json!(depth));
-	let mut x = X { sc: &sc, gen, pool: Pool::new(depth * 1025 + 8), ks, sels, depth, memo: HashSet::new(), me: shard, n };
+	let mut x = X { sc: &sc, gen, pool: Pool::new((depth + 1) * 1025 + 8), ks, sels, depth, memo: HashSet::new(), me: shard, n, prefix_ops: vec![], only: None };
 	let hist = Hist { blocks: vec![], head: None, next_out: 0, uniq: 0 };
+	let mut ops = vec![];
+	dfs(&mut x, &root, &hist, &mut ops, &mut rep, (0, n));
+	// second start: a state that already spans two chunks (one block of 1025 outputs), so that
+	// histories such as [block, block spending in chunk 0, fork below both] fit the depth bound
+	x.prefix_ops = vec![Op::Apply { k: 1025, sel: Sel::None, parent: None, commit: true }];
+	if tier == Tier::Quick {
+		x.ks = vec![600];
+		x.sels = vec![Sel::None, Sel::FirstOfChunk0, Sel::LastOfChunk0, Sel::FirstOfChunk1];
+	}
 	let mut ops = vec![];
 	dfs(&mut x, &root, &hist, &mut ops, &mut rep, (0, n));
 	let _ = x.n;
@@ -538,7 +565,7 @@ impl Engine for C15 {
 	fn meta(&self, _tier: Tier) -> Meta {
 		Meta {
 			level: "model_checking",
-			rule: "explicit-state exploration (DFS over directory snapshots) of the real TxHashSet/Extension/BitmapAccumulator of a chain directory driven through the extension seam with synthetic blocks: alphabet {apply a block with k new outputs (k in {600,1024} quick / {1,600,1023,1025} thorough) and a spend selection (none, first/last of chunk 0, first of chunk 1, every other leaf of the oldest chunk, all of the last partial chunk, all of the oldest chunk, all of chunk 1) on the head or on any ancestor of the head (= rewind across chunk boundaries, then re-apply), the same as a rolled-back unit, reopen}, every sequence up to the depth bound. After every step, and after reopening the copy: the committed bitmap root equals (1) a BitmapAccumulator initialised from scratch over the reference unspent index set, (2) an independently built chunk MMR with its own hashing, and the accumulator's bit set equals the reference unspent set; a rolled-back unit changes nothing.",
+			rule: "explicit-state exploration (DFS over directory snapshots) of the real TxHashSet/Extension/BitmapAccumulator of a chain directory driven through the extension seam with synthetic blocks: alphabet {apply a block with k new outputs (k in {600,1024} quick / {1,600,1023,1025} thorough) and a spend selection (none, first/last of chunk 0, first of chunk 1, every other leaf of the oldest chunk, all of the last partial chunk, all of the oldest chunk, all of chunk 1) on the head or on any ancestor of the head (= rewind across chunk boundaries, then re-apply), the same as a rolled-back unit, reopen}, every sequence up to the depth bound, from the empty state and from a state that already holds one block of 1025 outputs (two chunks). After every step, and after reopening the copy: the committed bitmap root equals (1) a BitmapAccumulator initialised from scratch over the reference unspent index set, (2) an independently built chunk MMR with its own hashing, and the accumulator's bit set equals the reference unspent set; a rolled-back unit changes nothing.",
 			assumptions: vec![
 				"the seam replicates pipe::rewind_and_apply_fork minus signature/range-proof/sum validation, which this layer never consults; headers carry the roots the real extension computes so that start-up validation passes".into(),
 				"depth 3 (quick) / 4 (thorough); output counts up to 4 chunks".into(),
@@ -554,6 +581,29 @@ impl Engine for C15 {
 		run(tier, shard, n)
 	}
 	fn replay(&self, case: &Value) -> Result<String, String> {
-		Ok(format!("history to re-run: {}", case["ops"]))
+		uni::init_thread();
+		grin_core::global::set_local_chain_type(grin_core::global::ChainTypes::Testnet);
+		let only: Vec<String> = case["ops"].as_array().ok_or("no ops")?.iter().filter_map(|x| x.as_str().map(|s| s.to_string())).collect();
+		let sc = uni::Scratch::new("c15r");
+		let gen = grin_core::genesis::genesis_test();
+		let root = sc.fresh("root");
+		{
+			let c = uni::open_chain(&root, &gen);
+			drop(c);
+		}
+		let all_sels = vec![Sel::None, Sel::FirstOfChunk0, Sel::LastOfChunk0, Sel::FirstOfChunk1, Sel::EveryOtherOfOldestChunk, Sel::AllOfLastPartialChunk, Sel::AllOfOldestChunk, Sel::AllOfChunk1];
+		let depth = only.len();
+		let mut x = X { sc: &sc, gen, pool: Pool::new((depth + 1) * 1025 + 8), ks: vec![1, 600, 1023, 1024, 1025], sels: all_sels, depth, memo: HashSet::new(), me: 0, n: 1, prefix_ops: vec![], only: Some(only.clone()) };
+		let hist = Hist { blocks: vec![], head: None, next_out: 0, uniq: 0 };
+		let mut rep = Report::new();
+		let mut ops = vec![];
+		dfs(&mut x, &root, &hist, &mut ops, &mut rep, (0, 1));
+		if rep.transitions < only.len() as u64 && rep.violations.is_empty() {
+			return Err(format!("history {:?} could not be re-executed ({} of {} steps)", only, rep.transitions, only.len()));
+		}
+		match rep.violations.first() {
+			Some(v) => Err(format!("{}: {}", v.key, v.what)),
+			None => Ok(format!("{} steps, bitmap commitment equals the from-scratch accumulator after each", only.len())),
+		}
 	}
 }
